@@ -1555,7 +1555,7 @@ RULE = ('every public raster function (registry below = RASTER_FUNCS) x backend 
         'buffer), write-to-output probe, output identity (shape, dims, coords, attrs, backend), compared with the property text '
         '(oracle) and with the verdict of the extracted checker on the regenerated IR of that function (correspondence); plus '
         'call sequences of length 2..4 on the same raster objects. Quick tier: a latin-square sample of the cross product '
-        '(every dtype, layout and backend occurs for several functions); thorough tier: the full cross product. A case is '
+        '(every dtype, layout and backend occurs for several functions); thorough tier: the full dtype x layout product on NumPy, every dtype x 2 layouts on Dask, 60 sequences. A case is '
         'non-trivial when the call returned a result (calls that raise for a dtype/layout are counted separately and still '
         'checked for unmodified inputs).')
 TRUSTED = [
@@ -1580,6 +1580,10 @@ PARTIAL = [
     'zonal.crosstab zone_ids excluded from the protected roots (dict-key conflation)',
     'dict keys and container members are not distinguished by the IR (field-insensitive); nested containers of arrays written '
     'through two subscripts are treated as array writes',
+    'no obligation (verdict recorded only) for the public functions that are not raster-in/raster-out: ' + ', '.join(sorted(NON_RASTER_FUNCS)) +
+    '; esri.py, gpu_rtx/ and datasets/ are not translated',
+    'dynamic observation: natural_breaks, a_star_search, viewshed, regions, trim, crop, polygonize, zonal.apply, local.*, canvas_like '
+    'only on the NumPy backend (no Dask implementation)',
 ]
 LEVEL_TEXT = ('Proved for all programs, all traces (any order/repetition of the program\'s instructions, i.e. all control flow), all '
               'heaps and all protected location sets: the boolean checker is sound (C10_writes_nothing_sound, '
@@ -1981,9 +1985,11 @@ def gen_cases(ctx, only=None, full=False):
         ent = reg[fn]
         combos = []
         if full:
+            # NumPy backend: the full dtype x layout product; Dask backend: every dtype x {C, one rotating other layout}
+            # (the Dask wrappers hand NumPy blocks of the same dtype to the same kernels)
             for be in ent['backends']:
-                for dt in DTYPES:
-                    for lo in LAYOUTS:
+                for di, dt in enumerate(DTYPES):
+                    for lo in (LAYOUTS if be == 'numpy' else ['C', LAYOUTS[1 + (di + fi) % 3]]):
                         combos.append((be, dt, lo))
         else:
             # latin-square style sample: 5 cells per function, all layouts, >= 3 dtypes incl. float32/float64, every backend
